@@ -454,7 +454,7 @@ class ConfParser:
                 self._confs["classical"] = ".true."
 
         if "cutoff_frequency" in arg_list:
-            if self._args.cutoff_frequency:
+            if self._args.cutoff_frequency is not None:
                 self._confs["cutoff_frequency"] = self._args.cutoff_frequency
 
         if "displacement_distance" in arg_list:
@@ -632,7 +632,7 @@ class ConfParser:
                 self._confs["random_displacements"] = nrand
 
         if "random_seed" in arg_list:
-            if self._args.random_seed:
+            if self._args.random_seed is not None:
                 seed = self._args.random_seed
                 if np.issubdtype(type(seed), np.integer) and seed >= 0 and seed < 2**32:
                     self._confs["random_seed"] = seed
@@ -666,11 +666,11 @@ class ConfParser:
                 self._confs["symmetry_tolerance"] = symtol
 
         if "tmax" in arg_list:
-            if self._args.tmax:
+            if self._args.tmax is not None:
                 self._confs["tmax"] = self._args.tmax
 
         if "tmin" in arg_list:
-            if self._args.tmin:
+            if self._args.tmin is not None:
                 self._confs["tmin"] = self._args.tmin
 
         if "tstep" in arg_list:
@@ -1667,7 +1667,7 @@ class PhonopyConfParser(ConfParser):
 
         if "thermal_displacement_matrices_cif" in arg_list:
             opt_tdm_cif = self._args.thermal_displacement_matrices_cif
-            if opt_tdm_cif:
+            if opt_tdm_cif is not None:
                 self._confs["tdispmat_cif"] = opt_tdm_cif
 
         if "projection_direction" in arg_list:
@@ -1756,7 +1756,7 @@ class PhonopyConfParser(ConfParser):
                 self._confs["moment"] = ".true."
 
         if "moment_order" in arg_list:
-            if self._args.moment_order:
+            if self._args.moment_order is not None:
                 self._confs["moment_order"] = self._args.moment_order
 
         if "rd_temperature" in arg_list:
